@@ -127,6 +127,7 @@ def scan_crate(root):
                 defs.setdefault(m.group(4), []).append(gate)
     refs = []
     stmt_level = 0
+    inner_gates = 0
     for path, items in files.items():
         rel = os.path.relpath(path, root)
         for cfgs, text in items:
@@ -135,15 +136,21 @@ def scan_crate(root):
             # gates below item level (inside bodies) or cfg! would make an item's source feature-dependent
             inner = body[body.find("{") + 1:] if "{" in body else ""
             if re.search(r"cfg!\s*\(", body) or re.search(r"#\[cfg\(feature", inner):
-                # `impl` blocks legitimately contain gated methods; count only gates inside fn bodies
+                # gates inside fn bodies (statement level) and gates on items nested in impl / trait bodies are counted apart:
+                # a gated associated item of a trait impl silently falls back to the trait's default when the feature is off,
+                # so the *behaviour* of an included impl would depend on the feature selection
+                in_fn = 0
                 for fm in re.finditer(r"fn\s+\w+[^{;]*\{", inner):
                     k, depth = fm.end(), 1
                     while k < len(inner) and depth:
                         depth += inner[k] == "{"
                         depth -= inner[k] == "}"
                         k += 1
-                    if re.search(r"#\[cfg\(feature|cfg!\s*\(", inner[fm.end():k]):
+                    n_here = len(re.findall(r"#\[cfg\(feature|cfg!\s*\(", inner[fm.end():k]))
+                    if n_here:
                         stmt_level += 1
+                        in_fn += n_here
+                inner_gates += max(0, len(re.findall(r"#\[cfg\(feature|cfg!\s*\(", inner)) - in_fn)
             for d in optional:
                 if re.search(r"\b%s::" % d.replace("-", "_"), body):
                     refs.append({"where": rel, "ctx": ctx, "target": "crate:" + d,
@@ -157,7 +164,7 @@ def scan_crate(root):
                         continue
                     refs.append({"where": rel, "ctx": ctx, "target": "item:" + name,
                                  "needs": ("any", [("all", g) for g in gates])})
-    return {"features": feats, "optional": optional, "enables": enables, "refs": refs, "stmt_level_gates": stmt_level}
+    return {"features": feats, "optional": optional, "enables": enables, "refs": refs, "stmt_level_gates": stmt_level, "inner_gates": inner_gates}
 
 
 def closure(feats, S):
@@ -190,7 +197,7 @@ def emit(repo="/repo"):
            "namespace PM.Extracted.Feat",
            "inductive Cfg | feat (f : Nat) | all (l : List Cfg) | any (l : List Cfg) | not (c : Cfg) | tt | ff",
            "structure Ref where", "  ctx : Cfg", "  needs : Cfg",
-           "structure CrateFacts where", "  nFeatures : Nat", "  edges : List (Nat × Nat)", "  refs : List Ref", "  stmtLevelGates : Nat"]
+           "structure CrateFacts where", "  nFeatures : Nat", "  edges : List (Nat × Nat)", "  refs : List Ref", "  stmtLevelGates : Nat", "  innerGates : Nat"]
     info = {}
     for c in CRATES:
         sc = scan_crate(os.path.join(repo, c))
@@ -205,8 +212,8 @@ def emit(repo="/repo"):
                 refs.append(e)
         ident = c.replace("-", "_")
         out.append("def %s_refs : List Ref := [" % ident + ",\n    ".join(refs) + "]")
-        out.append("def %s : CrateFacts := { nFeatures := %d, edges := [%s], stmtLevelGates := %d, refs := %s_refs }" % (
-            ident, len(names), ", ".join("(%d, %d)" % e for e in edges), sc["stmt_level_gates"], ident))
+        out.append("def %s : CrateFacts := { nFeatures := %d, edges := [%s], stmtLevelGates := %d, innerGates := %d, refs := %s_refs }" % (
+            ident, len(names), ", ".join("(%d, %d)" % e for e in edges), sc["stmt_level_gates"], sc["inner_gates"], ident))
         out.append("/-- feature names of %s, by index: %s -/" % (c, ", ".join("%d=%s" % (i, f) for f, i in idx.items())))
         out.append("def %s_names : List String := [%s]" % (ident, ", ".join('"%s"' % f for f in names)))
         info[c] = {"names": names, "features": sc["features"], "refs": len(refs), "stmt": sc["stmt_level_gates"]}
